@@ -12,7 +12,7 @@ PROPS = ['Props/C08.v', 'Findings/C08.v']
 GEN = [('Gen/C08Conv.v', convvalidate.generate)]
 TRUSTED = [
     'py2coq translator (tools/py2coq/core.py + convvalidate.py): IntConverter.init, IntConverter.validate, RealConverter.validate, DecimalConverter.validate, '
-    'StrConverter.validate, the `if val is None` statement of Attribute.validate and Required.validate are re-translated from /repo on every run; the translated '
+    'StrConverter.validate, the `if val is None` statement of Attribute.validate and Required.validate are re-translated from /repo on every run, and Attribute.__set__ is scanned (only the session/deleted guards may precede the validate call); the translated '
     'functions are cross-checked against the real classes on every generated case (vm_compute inside coqc)',
     'hand-written composition Model/C08Spec.v:attribute_validate/required_validate (Attribute.validate -> converter -> py_check -> Required check), tied by '
     'correspondence with the real attr.validate on generated attribute declarations',
@@ -31,7 +31,9 @@ RULE = ('exhaustive product: int declarations = size {omitted,8,16,24,32,64,+3 i
         '{omitted, type bound-1, type bound, type bound+1, -5,-1,0,1,5} (quick tier: pairs where one side is in a reduced set) x values at every declared/type bound and bound+-1, 0, +-1, +-5; '
         'float/Decimal declarations = bound pairs incl. +-0, +-inf x values at bound+-1ulp (float) / +-0.01 (Decimal), zeros, infinities, NaN; str = autostrip x max_len {omitted,0,1,3,5,40} x strings at '
         'length max_len-1..max_len+1 with ASCII/Unicode whitespace padding; attribute level = Required/Optional x nullable x volatile x sql_default x py_check x autostrip x {None, "", " ", "x", ...}; '
-        'each (declaration, value) runs through converter.validate, Entity(...), obj.attr = v, obj.set(), Entity.get(attr=v) on an in-memory SQLite database. '
+        'each (declaration, value) runs through converter.validate, Entity(...), obj.attr = v, obj.set(), Entity.get(attr=v) on an in-memory SQLite database; '
+        'assignments are also run against objects in different prior states (just created / loaded / loaded from a row written by raw SQL that violates the declaration) with candidates equal to the held value '
+        'but of another Python type (30 vs 30.0 vs Decimal(30) vs True) or equal to the invalid held value: the outcome must equal that of the stateless attr.validate. '
         'non-trivial = the declaration is accepted and the value set contains both accepted and rejected values; distinct = distinct (declaration, value)')
 
 P2 = lambda k: 2 ** k
@@ -355,6 +357,8 @@ def impl_runs(ctx, deep):
                                 R['attr'].append({'decl': desc, 'state': {'nullable': attr.nullable, 'is_required': attr.is_required, 'auto': bool(attr.auto),
                                                                           'volatile': bool(attr.is_volatile), 'sql_default': bool(attr.sql_default)},
                                                   'values': vals, 'results': res})
+    # --- assignments against objects in different prior states (created / loaded / row written past the ORM with an invalid value)
+    R['assign_states'], R['assign_convs'] = impl.run_state_assignments()
     _cache[key] = R
     return R
 
@@ -432,6 +436,20 @@ def correspondence(ctx):
         dist['attr_decls'] += 1; dist['attr_values'] += len(rec['values']); cases += len(rec['values'])
         if len(set(r[0] for r in rec['results'])) > 1:
             for v in rec['values']: nontrivial.add(('attr', json.dumps(d, sort_keys=True), v))
+
+    # assignment in different prior states: int attributes, int candidates, compared with attr_set_outcome (scanned from Attribute.__set__)
+    dist['assign_state_cases'] = 0
+    for r in R['assign_states']:
+        dist['assign_state_cases'] += 1; cases += 1
+        conv = R['assign_convs'][r['attr']]
+        try: held, v = eval(r['held']), eval(r['value'])
+        except Exception: continue
+        if r['attr'] in ('age', 'level') and type(held) is int and type(v) is int:
+            a = r['assign']
+            code = (0 if a[2] == repr(v) else -1) if a[0] == 'ok' else a[1]
+            exprs.append('chk_assign_int %s %s %s %s %s' % (copt(conv.min_val, cz), copt(conv.max_val, cz), cz(held), cz(v), cz(code)))
+            meta.append(('assign-int', [r['attr'], r['state'], r['held'], r['value']], a))
+            nontrivial.add(('assign', r['attr'], r['state'], r['value']))
 
     # reference semantics: is_space vs str.isspace, py_strip vs str.strip (CPython of this run)
     spaces = [c for c in range(0x110000) if chr(c).isspace()]
@@ -578,6 +596,16 @@ def search(ctx, deep):
                      '%s(%s, %s): validate(%r) gives %r, expected %r' % (d['kind'], d['type'], {k: d[k] for k in ('nullable', 'volatile', 'sql_default', 'py_check', 'autostrip')}, v, r, want),
                      {'type': 'attr', 'decl': d, 'value': v})
             else: nontriv.add(('attr', json.dumps(d, sort_keys=True), v))
+    for r in R['assign_states']:
+        evals += 1
+        if r['assign'] != r['validate']:
+            kind = 'accepted-where-validate-rejects' if r['assign'][0] == 'ok' and r['validate'][0] == 'err' else (
+                   'rejected-where-validate-accepts' if r['assign'][0] == 'err' and r['validate'][0] == 'ok' else 'different-outcome')
+            fail('unlisted:assign-state:%s:%s:%s' % (r['attr'], r['state'], kind),
+                 'assignment depends on the held value: object (%s) holding %s=%s: `obj.%s = %s` gives %r, but validation of that value gives %r' % (
+                     r['state'], r['attr'], r['held'], r['attr'], r['value'], r['assign'], r['validate']),
+                 {'type': 'assign-state', 'attr': r['attr'], 'state': r['state'], 'value': r['value']})
+        else: nontriv.add(('assign', r['attr'], r['state'], r['value']))
     dist = {'failing_inputs_by_key': by_key, 'evaluations_by_type': {k: sum(len(r.get('values', [])) for r in R[k]) for k in ('int', 'int64', 'float', 'dec', 'str', 'attr')}}
     return Search(evaluations=evals, failures=failures, nontrivial=len(nontriv), distribution=dist, exhaustive=True,
                   samples=[{'declaration': 'Optional(int, size=8, unsigned=True, max=200)', 'values': [-1, 0, 200, 201, 255, 256], 'oracle': 'accepted iff 0 <= v <= 200'}])
@@ -657,6 +685,13 @@ def replay(ctx, data):
         r = impl.attr_validate(attr, v)
         want = ref_attr(d, st, v)
         if r != want: return Failure('unlisted:attr:replay', 'validate(%r) gives %r, expected %r' % (v, r, want), data)
+        return None
+    if t == 'assign-state':
+        out, convs = impl.run_state_assignments()
+        for r in out:
+            if (r['attr'], r['state'], r['value']) == (data['attr'], data['state'], data['value']) and r['assign'] != r['validate']:
+                return Failure('unlisted:assign-state:%s:%s:replay' % (r['attr'], r['state']),
+                               'object (%s) holding %s=%s: `obj.%s = %s` gives %r, validation gives %r' % (r['state'], r['attr'], r['held'], r['attr'], r['value'], r['assign'], r['validate']), data)
         return None
     if t == 'route':
         return Failure('unlisted:route:replay', 'route disagreement recorded: %s' % json.dumps(data.get('detail'))[:300], data)
